@@ -9,6 +9,8 @@ only = sys.argv[1:]
 for d in sorted(os.listdir(os.path.join(V, "seeded"))):
     if only and d not in only:
         continue
+    if d.startswith("own-"):
+        continue
     mp = os.path.join(V, "seeded", d, "meta.json")
     if not os.path.exists(mp):
         continue
